@@ -1,20 +1,31 @@
-(* Generated media sections (sdp.go addTransceiverSDP, codec and extmap part)
-   and the two PeerConnection paths that produce them in the harness: a first
-   offer, and an answer to a remote offer.  Transceiver-to-section matching
-   (findByMid / satisfyTypeAndDirection) is not modelled here: the harness says
-   which local transceiver, if any, each remote section is given.
-   No proofs here. *)
+(* Generated media sections (sdp.go addTransceiverSDP, codec and extmap part):
+   the section of one transceiver, the sections of a first offer, the remote
+   description with header extensions.  Which transceiver answers which offered
+   section is modelled in Model/CodecAssoc.v; answer_sections below takes the
+   association as an argument and is kept for the single-description witnesses
+   of Proofs/Section.v.  No proofs here. *)
 From Coq Require Import List ZArith NArith String Ascii Bool.
 Import ListNotations.
 From Verif Require Import Common.Base Model.Fmtp Model.Codec Model.HeaderExt.
 Open Scope string_scope.
 
-(* strings.TrimPrefix *)
-Definition trim_prefix (p s : string) : string :=
-  match strip_prefix p s with Some r => r | None => s end.
+(* len(s) >= len(p) && strings.EqualFold(s[:len(p)], p): the rest of s *)
+Fixpoint strip_prefix_fold (p s : string) : option string :=
+  match p with
+  | EmptyString => Some s
+  | String a p' => match s with
+                   | String b s' => if Ascii.eqb (lower_ascii a) (lower_ascii b)
+                                    then strip_prefix_fold p' s' else None
+                   | EmptyString => None
+                   end
+  end.
+Definition trim_prefix_fold (p s : string) : string :=
+  match strip_prefix_fold p s with Some r => r | None => s end.
 
+(* the media type is stripped ignoring case (as repaired: "addTransceiverSDP
+   strips the media type of a mime type ignoring case") *)
 Definition codec_name (c : codec) : string :=
-  trim_prefix "video/" (trim_prefix "audio/" (c_mime c)).
+  trim_prefix_fold "video/" (trim_prefix_fold "audio/" (c_mime c)).
 
 (* the attribute lines one codec contributes, in order *)
 Definition codec_lines (c : codec) : list (string * string) :=
